@@ -254,3 +254,66 @@ fn inverse_permute<S: Sample>(permutation: u32, rows: [&mut [S]; 3]) {
         _ => {}
     }
 }
+
+/// Verification hook H7: direct entry points to the RCT kernels. Not part of the public API.
+#[cfg(jxl_oxide_verif)]
+pub mod verif {
+    use jxl_grid::MutableSubgrid;
+    use jxl_threadpool::JxlThreadPool;
+
+    use crate::Sample;
+
+    /// `inverse_rct::<S, TYPE>` with the type as a run-time value (`ty` in `0..=6`), dispatching
+    /// on sample type and CPU features exactly as the decoder does. Returns `false` for other `ty`.
+    pub fn inverse_rct<S: Sample>(
+        ty: u32,
+        permutation: u32,
+        grids: [&mut MutableSubgrid<S>; 3],
+        pool: &JxlThreadPool,
+    ) -> bool {
+        match ty {
+            0 => super::inverse_rct::<S, 0>(permutation, grids, pool),
+            1 => super::inverse_rct::<S, 1>(permutation, grids, pool),
+            2 => super::inverse_rct::<S, 2>(permutation, grids, pool),
+            3 => super::inverse_rct::<S, 3>(permutation, grids, pool),
+            4 => super::inverse_rct::<S, 4>(permutation, grids, pool),
+            5 => super::inverse_rct::<S, 5>(permutation, grids, pool),
+            6 => super::inverse_rct::<S, 6>(permutation, grids, pool),
+            _ => return false,
+        }
+        true
+    }
+
+    /// Scalar row kernels (no permutation step). Return `false` for `ty` outside `0..=6`.
+    pub fn inverse_row_i16_base(ty: u32, rows: &mut [&mut [i16]; 3]) -> bool {
+        match ty {
+            0 => super::inverse_row_i16_base::<0>(rows),
+            1 => super::inverse_row_i16_base::<1>(rows),
+            2 => super::inverse_row_i16_base::<2>(rows),
+            3 => super::inverse_row_i16_base::<3>(rows),
+            4 => super::inverse_row_i16_base::<4>(rows),
+            5 => super::inverse_row_i16_base::<5>(rows),
+            6 => super::inverse_row_i16_base::<6>(rows),
+            _ => return false,
+        }
+        true
+    }
+    pub fn inverse_row_i32_base(ty: u32, rows: &mut [&mut [i32]; 3]) -> bool {
+        match ty {
+            0 => super::inverse_row_i32_base::<0>(rows),
+            1 => super::inverse_row_i32_base::<1>(rows),
+            2 => super::inverse_row_i32_base::<2>(rows),
+            3 => super::inverse_row_i32_base::<3>(rows),
+            4 => super::inverse_row_i32_base::<4>(rows),
+            5 => super::inverse_row_i32_base::<5>(rows),
+            6 => super::inverse_row_i32_base::<6>(rows),
+            _ => return false,
+        }
+        true
+    }
+
+    /// The permutation step applied after the row kernel.
+    pub fn inverse_permute<S: Sample>(permutation: u32, rows: [&mut [S]; 3]) {
+        super::inverse_permute(permutation, rows)
+    }
+}
